@@ -2054,6 +2054,7 @@ HANDLERS.update({
     (MAP, 'Deserialize', 'deserialize'): ({'C20'}, h_deserialize('deserialize_map')),
     (SET, 'Deserialize', 'deserialize'): ({'C20'}, h_deserialize('deserialize_seq')),
     (MAP, None, 'get_disjoint_mut'): ({'C13'}, h_get_disjoint),
+    (MAP, None, 'get_disjoint_unchecked_mut'): ({'C13', 'C18'}, h_unchecked_disjoint),
     (UNION, 'Iterator', 'next'): ({'C08'}, h_delegate),
     (UNION, 'Iterator', 'size_hint'): ({'C08'}, h_delegate),
     (UNION, 'Iterator', 'count'): ({'C08'}, h_delegate),
